@@ -8,6 +8,7 @@
 //! mid <stream#> <kind> <size> -> sent|fail
 //! probe <ns hex> <tp hex> <ps|rr> -> ok|fail:<text>
 //! alive -> ok|fail:<text>
+//! iso -> ok|fail:<text>      (five confusable names used concurrently)
 //! end
 use crate::net::*;
 use crate::util::*;
@@ -155,6 +156,48 @@ pub async fn probe_reqrep(client: &Client, topic: &str) -> Result<(), String> {
     res
 }
 
+/// distinct names that a careless key would confuse: swapped parts, shifted split point, shared
+/// namespace / shared topic.  Every subscriber must see exactly its own publisher's messages.
+pub async fn probe_isolation(client: &Client, tag: &str) -> Result<(), String> {
+    let names = [
+        format!("/iso{}ab/cdefg", tag),
+        format!("/iso{}abc/defg", tag),
+        format!("/cdefg/iso{}ab", tag),
+        format!("/iso{}ab/cdefh", tag),
+        format!("/iso{}ac/cdefg", tag),
+    ];
+    let mut subs = vec![];
+    for n in names.iter() {
+        subs.push(client.subscriber(n).with_decoder(StringCodec).open().await.map_err(|e| format!("sub_open:{:?}", e))?);
+    }
+    tokio::time::sleep(Duration::from_millis(80)).await;
+    let mut pubs = vec![];
+    for n in names.iter() {
+        pubs.push(client.publisher(n).with_encoder(StringCodec).open().await.map_err(|e| format!("pub_open:{:?}", e))?);
+    }
+    tokio::time::sleep(Duration::from_millis(80)).await;
+    for k in 0..3 {
+        for (j, p) in pubs.iter_mut().enumerate() {
+            p.send(format!("iso-{}-{}", j, k)).await.map_err(|e| format!("send:{:?}", e))?;
+        }
+    }
+    for (j, sub) in subs.iter_mut().enumerate() {
+        for k in 0..3 {
+            match tokio::time::timeout(Duration::from_millis(2500), sub.next()).await {
+                Ok(Some(Ok(s))) if s == format!("iso-{}-{}", j, k) => {}
+                Ok(Some(Ok(s))) => return Err(format!("subscriber_of_{}_got_{}", names[j], s)),
+                Ok(Some(Err(e))) => return Err(format!("recv:{:?}", e)),
+                Ok(None) => return Err("subscriber_ended".into()),
+                Err(_) => return Err(format!("subscriber_of_{}_missed_iso-{}-{}", names[j], j, k)),
+            }
+        }
+        if let Ok(Some(Ok(s))) = tokio::time::timeout(Duration::from_millis(120), sub.next()).await {
+            return Err(format!("subscriber_of_{}_got_extra_{}", names[j], s));
+        }
+    }
+    Ok(())
+}
+
 fn clean(s: String) -> String {
     s.replace([' ', '\n'], "_").chars().take(90).collect()
 }
@@ -249,6 +292,11 @@ pub async fn run_case(addr: std::net::SocketAddr, certs: &Certs, seed: u64, i: u
     let fresh = format!("/alive{}x{}/topic", seed % 100_000, i);
     let res = probe_pubsub(&client, &fresh).await;
     let _ = writeln!(out, "alive -> {}", match res {
+        Ok(()) => "ok".to_string(),
+        Err(e) => format!("fail:{}", clean(e)),
+    });
+    let res = probe_isolation(&client, &format!("{}x{}", seed % 100_000, i)).await;
+    let _ = writeln!(out, "iso -> {}", match res {
         Ok(()) => "ok".to_string(),
         Err(e) => format!("fail:{}", clean(e)),
     });
